@@ -116,45 +116,45 @@ Hypothesis Hk : e_kind e = KIter.
 Lemma istep_res c t q : t_pc (c_pool c t) = PRes q ->
   step e c t = commit c t (with_c (c_sh c) (wadd (s_c (c_sh c)) (pub_incr q)))
                       (set_pc (c_pool c t) (PChkF q (s_c (c_sh c))))
-                      (LAtom t SC AAdd (pub_incr q) (s_c (c_sh c))) [].
+                      (LAtom t SC AAdd (pub_incr q) (s_c (c_sh c)) (o_res q)) [].
 Proof. intros H. unfold step. rewrite H, Hk. reflexivity. Qed.
 
 Lemma istep_chkf c t q b : t_pc (c_pool c t) = PChkF q b ->
   step e c t =
-  if s_f (c_sh c) then finish e c t (c_sh c) (c_pool c t) (LAtom t SF ALoad 0 (bN (s_f (c_sh c)))) q (Ok PREnd)
-  else commit c t (c_sh c) (set_pc (c_pool c t) (PLdY q b)) (LAtom t SF ALoad 0 (bN (s_f (c_sh c)))) [].
+  if s_f (c_sh c) then finish e c t (c_sh c) (c_pool c t) (LAtom t SF ALoad 0 (bN (s_f (c_sh c))) (o_chkf q)) q (Ok PREnd)
+  else commit c t (c_sh c) (set_pc (c_pool c t) (PLdY q b)) (LAtom t SF ALoad 0 (bN (s_f (c_sh c))) (o_chkf q)) [].
 Proof. intros H. unfold step. rewrite H. reflexivity. Qed.
 
 Lemma istep_ldy c t q b : t_pc (c_pool c t) = PLdY q b ->
   step e c t =
-  if b =? s_y (c_sh c) then commit c t (c_sh c) (set_pc (c_pool c t) (PSrc q b [])) (LAtom t SY ALoad 0 (s_y (c_sh c))) []
-  else if b <? s_y (c_sh c) then finish e c t (c_sh c) (c_pool c t) (LAtom t SY ALoad 0 (s_y (c_sh c))) q (Ok PREnd)
-  else commit c t (c_sh c) (set_pc (c_pool c t) (PChkF q b)) (LAtom t SY ALoad 0 (s_y (c_sh c))) [].
+  if b =? s_y (c_sh c) then commit c t (c_sh c) (set_pc (c_pool c t) (PSrc q b [])) (LAtom t SY ALoad 0 (s_y (c_sh c)) (o_ldy q)) []
+  else if b <? s_y (c_sh c) then finish e c t (c_sh c) (c_pool c t) (LAtom t SY ALoad 0 (s_y (c_sh c)) (o_ldy q)) q (Ok PREnd)
+  else commit c t (c_sh c) (set_pc (c_pool c t) (PChkF q b)) (LAtom t SY ALoad 0 (s_y (c_sh c)) (o_ldy q)) [].
 Proof. intros H. unfold step. rewrite H. reflexivity. Qed.
 
 Lemma istep_skip c t : t_pc (c_pool c t) = PSkip ->
-  step e c t = commit c t (with_f (c_sh c) true) (set_pc (c_pool c t) PIdle) (LAtom t SF AStore 1 0) [ERet t RUnit []].
+  step e c t = commit c t (with_f (c_sh c) true) (set_pc (c_pool c t) PIdle) (LAtom t SF AStore 1 0 ord_completed_store_early_exit) [ERet t RUnit []].
 Proof. intros H. unfold step. rewrite H, Hk. reflexivity. Qed.
 
 Lemma istep_setf c t q b g : t_pc (c_pool c t) = PSetF q b g ->
   step e c t =
   match q_mode q with
-  | MSingle _ => finish e c t (with_f (c_sh c) true) (c_pool c t) (LAtom t SF AStore 1 0) q (Ok PREnd)
-  | _ => commit c t (with_f (c_sh c) true) (set_pc (c_pool c t) (PPub q b g)) (LAtom t SF AStore 1 0) []
+  | MSingle _ => finish e c t (with_f (c_sh c) true) (c_pool c t) (LAtom t SF AStore 1 0 (o_setf q)) q (Ok PREnd)
+  | _ => commit c t (with_f (c_sh c) true) (set_pc (c_pool c t) (PPub q b g)) (LAtom t SF AStore 1 0 (o_setf q)) []
   end.
 Proof. intros H. unfold step. rewrite H. reflexivity. Qed.
 
 Lemma istep_len c t hm : t_pc (c_pool c t) = PLen hm ->
   step e c t =
-  if s_f (c_sh c) then commit c t (c_sh c) (set_pc (c_pool c t) PIdle) (LAtom t SF ALoad 0 (bN (s_f (c_sh c)))) [ERet t (len_res hm (Some 0)) []]
+  if s_f (c_sh c) then commit c t (c_sh c) (set_pc (c_pool c t) PIdle) (LAtom t SF ALoad 0 (bN (s_f (c_sh c))) ord_completed_load_try_get_len) [ERet t (len_res hm (Some 0)) []]
   else match e_hint e with
-       | HExact => commit c t (c_sh c) (set_pc (c_pool c t) (PLen2 hm)) (LAtom t SF ALoad 0 (bN (s_f (c_sh c)))) []
-       | _ => commit c t (c_sh c) (set_pc (c_pool c t) PIdle) (LAtom t SF ALoad 0 (bN (s_f (c_sh c)))) [ERet t (len_res hm None) []]
+       | HExact => commit c t (c_sh c) (set_pc (c_pool c t) (PLen2 hm)) (LAtom t SF ALoad 0 (bN (s_f (c_sh c))) ord_completed_load_try_get_len) []
+       | _ => commit c t (c_sh c) (set_pc (c_pool c t) PIdle) (LAtom t SF ALoad 0 (bN (s_f (c_sh c))) ord_completed_load_try_get_len) [ERet t (len_res hm None) []]
        end.
 Proof. intros H. unfold step. rewrite H, Hk. reflexivity. Qed.
 
 Lemma istep_len2 c t hm : t_pc (c_pool c t) = PLen2 hm ->
-  step e c t = commit c t (c_sh c) (set_pc (c_pool c t) PIdle) (LAtom t SC ALoad 0 (s_c (c_sh c)))
+  step e c t = commit c t (c_sh c) (set_pc (c_pool c t) PIdle) (LAtom t SC ALoad 0 (s_c (c_sh c)) ord_counter_current)
                       [ERet t (len_res hm (Some (k_len e (s_c (c_sh c))))) []].
 Proof. intros H. unfold step. rewrite H. reflexivity. Qed.
 
